@@ -122,11 +122,19 @@ extern "C" void photospline_verif_block3(const char* phase, int iter, int nvar, 
 	fprintf(g_trace, "],\"solved\":%s}\n", solved ? "true" : "false");
 }
 
+// ---- the verification hook of nnls_lawson_hanson: one line per phase (coordinates 1-based, x to 2^-16)
+extern "C" void photospline_verif_lh(const char* phase, long index, double alpha, const long* P, unsigned nP, const long* Z, unsigned nZ, const double* x, long nvar) {
+	if (!g_trace) return;
+	auto seq = [&](const char* k, const long* a, unsigned n) { fprintf(g_trace, ",\"%s\":[", k); for (unsigned i = 0; i < n; i++) fprintf(g_trace, "%s%ld", i ? "," : "", a[i] + 1); fputc(']', g_trace); };
+	fprintf(g_trace, "{\"e\":\"%s\",\"i\":%ld,\"alpha\":%ld", phase, index + 1, q16(alpha)); seq("P", P, nP); seq("Z", Z, nZ);
+	fprintf(g_trace, ",\"x\":["); for (long i = 0; i < nvar; i++) fprintf(g_trace, "%s%ld", i ? "," : "", q16(x[i])); fprintf(g_trace, "]}\n");
+}
+
 int main(int argc, char** argv) {
 	if (argc < 5) return 2; std::string mode = argv[1]; cholmod_l_start(&cc); setenv("OMP_NUM_THREADS", "2", 0);
 	signal(SIGALRM, [](int) { fprintf(stderr, "HANG in nnls solver %s on %s\n", g_cur, g_curtag.c_str()); _exit(14); });
-	RngL rng(strtoull(argv[3], 0, 10)); FILE* out = mode == "trace" ? nullptr : fopen(argv[4], "w"); long cnt = 0;
-	if (mode == "trace") {
+	RngL rng(strtoull(argv[3], 0, 10)); FILE* out = (mode == "trace" || mode == "tracelh") ? nullptr : fopen(argv[4], "w"); long cnt = 0;
+	if (mode == "trace" || mode == "tracelh") {
 		if (argc < 6) return 2;
 		// argv: trace <systems> <stride> <offset> <trace file>
 		std::ifstream f(argv[2]); long stride = atol(argv[3]), offset = atol(argv[4]); g_trace = fopen(argv[5], "w"); std::string line; long k = 0, done = 0;
@@ -135,6 +143,7 @@ int main(int argc, char** argv) {
 			JV c = jparse(line); int n = (int)c["n"].integer(); std::vector<double> A(n * n), b(n), x;
 			for (int i = 0; i < n; i++) { b[i] = (double)c["b"].a[i].integer(); for (int j = 0; j < n; j++) A[i * n + j] = (double)c["A"].a[i].a[j].integer(); }
 			fprintf(g_trace, "{\"e\":\"start\",\"n\":%d,\"A\":%s,\"b\":%s}\n", n, line.substr(line.find("\"A\":") + 4, line.find("]]") + 2 - line.find("\"A\":") - 4).c_str(), line.substr(line.find("\"b\":") + 4, line.find("]", line.find("\"b\":")) + 1 - line.find("\"b\":") - 4).c_str());
+			if (mode == "tracelh") { solve(3, A, b, n, x); done++; continue; }      // the hook writes the records, "end" included
 			bool ok = solve(0, A, b, n, x);
 			fprintf(g_trace, "{\"e\":\"end\",\"ok\":%s,\"x\":[", ok ? "true" : "false"); for (int i = 0; ok && i < n; i++) fprintf(g_trace, "%s%ld", i ? "," : "", q16(x[i])); fprintf(g_trace, "]}\n");
 			done++;
